@@ -345,6 +345,8 @@ def do_run(h, modname, tier, seed, workdir, known, build_s, t0):
         "inconclusive": inconclusive,
         "distinct_schedule_hashes": len(hashes),
         "counters": dict(sorted(stats.items())),
+        "faults_injected": {k.split(":", 1)[1] if ":" in k else k: v for k, v in sorted(stats.items()) if k.startswith(("fault_fired", "buggify_fired", "abort_inside"))},
+        "simulated_time": "clock() is simulated per client thread (frozen, or advanced by a fixed tick / one jump of +-2^31 per call of clock(), C06); the library has no timer or deadline, so no simulated time elapses beyond clock() calls",
         "components": getattr(h, "COMPONENTS", {}),
         "known_findings_hit": {kid: n for kid, (k, n) in known_hit.items()},
         "build_s": round(build_s, 1),
